@@ -196,14 +196,15 @@ def lf3(F, R):
         R.require(ok, f, nm + ":reset", "%s must set free = inner.len() (the whole storage, nothing else), overflow = false, unpaired_surrogate = None; got %s" % (nm, got), f.loc(0))
 
 
-@rule("LF4", ["C17"], floor=6,
+@rule("LF4", ["C17"], floor=4,
       doc="a long name is passed to the callback only when the state is Complete{csum} and csum equals the short entry's checksum; after a short entry has been reported the state is reset to Waiting and the buffer cleared, in both FAT arms")
 def lf4(F, R):
     fn = F.fn(FATVOL + "::iterate_dir_lfn")
     cls = F.closures_of(fn)
     # the two listing closures are the ones that call the user's callback
     lcs = [c for c in cls if any((callee_of(t) or "").endswith("FnMut::call_mut") for b, t in c.calls())]
-    R.require(len(lcs) == 2, fn, "closures", "expected two listing closures (FAT16 and FAT32), found %d" % len(lcs), fn.loc(0))
+    from .rules_r3 import _every_walk_gets
+    R.require(_every_walk_gets(fn, lcs), fn, "closures", "both directory walks (FAT16 and FAT32) must be given a listing closure that calls the user's callback; found %d such closures" % len(lcs), fn.loc(0))
     for c in lcs:
         cbs = [(b, t) for b, t in c.calls() if (callee_of(t) or "").endswith("FnMut::call_mut")]
         for b, t in cbs:
